@@ -207,6 +207,10 @@ func (c *checker) partA(h []Step) ([]string, bool) {
 		c.violate("A|active-dump-differs-in-writer|last="+lastKind(h), fmt.Sprintf("history [%s]: dump in the writing process = %s ; model = %s", hs, d.Dump, want), replay)
 		clean = false
 	}
+	// informational only (no verdict): are the registry segment files of both sides byte-identical?
+	same, total := compareSegments(p.base)
+	run.Add("partA_registry_segment_files_compared", int64(total))
+	run.Add("partA_registry_segment_files_identical", int64(same))
 	// fresh process, active side
 	rs, err = p.run([]Action{act("dump")})
 	run.Add("processes", 1)
@@ -244,6 +248,25 @@ func (c *checker) partA(h []Step) ([]string, bool) {
 	}
 	c.checkPassiveDump("A", "fresh-process-after-failover", h, rs[0], want, activeDump, replay, &clean)
 	return ops, clean
+}
+
+// compareSegments compares every *.reg file under <base>/a with its counterpart under <base>/p.
+func compareSegments(base string) (same, total int) {
+	a, p := filepath.Join(base, "a"), filepath.Join(base, "p")
+	filepath.Walk(a, func(path string, info os.FileInfo, err error) error {
+		if err != nil || info.IsDir() || !strings.HasSuffix(path, ".reg") {
+			return nil
+		}
+		total++
+		rel, _ := filepath.Rel(a, path)
+		x, e1 := os.ReadFile(path)
+		y, e2 := os.ReadFile(filepath.Join(p, rel))
+		if e1 == nil && e2 == nil && bytes.Equal(x, y) {
+			same++
+		}
+		return nil
+	})
+	return
 }
 
 func (c *checker) checkPassiveDump(part, where string, h []Step, d Result, want, activeDump string, replay any, clean *bool) {
